@@ -10,6 +10,7 @@ package main
 //          the real decision (ErrMissingWhereClause or not) vs the Lean model `missingWhere (guardState …)`, and the
 //          property itself: rejected ⇒ no exec/query/prepare event, table unchanged, errors.Is(ErrMissingWhereClause)
 //   admit  (e2e): chains that DO supply a condition are never rejected on this ground
+//   reuse  (c08_reuse.go): call sequences on one statement — tie with the Lean statement machine + the guard after any history
 
 import (
 	"encoding/json"
@@ -525,9 +526,10 @@ func init() {
 		}
 		flush()
 		r.Exhaustive = true
-		r.Note("blocking side enumerated exhaustively: %d condition-free calls (9 empty forms x Where/Not/Or + 6 other chain methods), "+
-			"none/one call and pairs (all pairs in thorough, 1/90 sample in quick) x 10 finishers (struct and slice model values) x plain/soft-delete/two-soft-delete-columns x "+
-			"first use or reuse of the statement after Count/Pluck x AllowGlobalUpdate off/config/session x key zero/set x Unscoped", len(c09Calls(false)))
+		r.Note("blocking side enumerated exhaustively: %d condition-free calls (9 empty forms x Where/Not/Or + 28 other chain methods and extra clauses), "+
+			"none/one call and pairs (half of the pairs in thorough, 1/220 sample in quick) x 10 finishers (struct and slice model values) x plain/soft-delete/two-soft-delete-columns x "+
+			"first use or reuse of the statement after Count/Pluck x AllowGlobalUpdate off/config/session x key zero/set x Unscoped; the transaction mode "+
+			"(implicit / SkipDefaultTransaction session+config / Begin..Commit / Transaction / PrepareStmt) is drawn per case", len(c09Calls(false)))
 	})
 
 	// admitting side: a chain that supplies a condition is never rejected with ErrMissingWhereClause
